@@ -20,12 +20,14 @@ func main() {
 			switch sel {
 			case 2:
 				return runBind(in)
+			case 3:
+				return runAgent(in)
 			}
 			return cyc.Run2(sel, in)
 		},
 		Laws: func(sel int, in, got []int64, law func(lsel int, lin []int64, sig string)) {
 			switch sel {
-			case 2:
+			case 2, 3:
 				bindLaws(in, law)
 				return
 			}
@@ -40,6 +42,7 @@ func main() {
 		Gen: func(rng *vh.Rng, n int, emit func(id string, sel int, in []int64, kind string, nontrivial bool, desc any)) {
 			cyc.Gen(rng, n, emit)
 			genBind(rng.Fork(), n, emit)
+			genAgent(rng.Fork(), n, emit)
 		},
 	}
 	h.Main()
